@@ -29,7 +29,7 @@ from pathlib import Path
 VERIF = Path(__file__).resolve().parent.parent
 LEAN = VERIF / "lean"
 REPO = Path(os.environ.get("ELIOT_REPO", "/repo"))
-EVIDENCE = VERIF / "evidence"
+EVIDENCE = Path(os.environ.get("VERIF_EVIDENCE_DIR", str(VERIF / "evidence")))  # development runs against a scratch copy may redirect it
 REPLAYS = VERIF / "replays"
 KNOWN = VERIF / "KNOWN_FINDINGS.jsonl"
 PY = "/venv/bin/python"
